@@ -546,6 +546,9 @@ func generate(o hx.Opts) []scen {
 			for _, su := range suites {
 				for _, pol := range policies {
 					for _, cli := range realClients {
+						if isECDHE(su) && (cli == "none" || cli == "sigonly") {
+							continue // a real client without two certificates does not offer ECDHE
+						}
 						out = append(out, scen{st, "full", su, pol, "", "", cli})
 					}
 				}
@@ -576,6 +579,9 @@ func generate(o hx.Opts) []scen {
 				for _, p1 := range policies {
 					for _, p2 := range policies {
 						for _, cli := range clis {
+							if isECDHE(su) && (cli == "none" || cli == "sigonly") {
+								continue
+							}
 							out = append(out, scen{st, "hist", su, p1, p2, "same", cli})
 						}
 					}
